@@ -2,11 +2,19 @@ import ScVerif.C01.Model
 /-!
 # C01 — the concrete message used by the driver
 
-`Msg` is `internal/testproto.TestAllTypes` restricted to three top-level scalar fields:
+`Msg` is `internal/testproto.TestAllTypes` restricted to five top-level fields of all the shapes
+`proto.Merge` treats differently:
 
-* `a` = `default_int32`  (implicit presence: populated iff ≠ 0)
-* `s` = `default_string` (implicit presence: populated iff ≠ "")
-* `c` = `optional_int32` (explicit presence)
+* `a` = `default_int32`  (scalar, implicit presence: populated iff ≠ 0)
+* `s` = `default_string` (scalar, implicit presence: populated iff ≠ "")
+* `c` = `optional_int32` (scalar, explicit presence)
+* `f` = `default_foreign_message` (a nested message `ForeignMessage{c, d int32}`; present or absent)
+* `r` = `repeated_int32` (a repeated field; populated iff non-empty)
+
+Under an update mask that names them, `proto.Merge` REPLACES a scalar, MERGES a nested message
+field by field (sub-fields populated in the source overwrite, the others are kept) and APPENDS to a
+repeated field; with no update mask the destination (or its writable fields) is cleared first, so
+everything is replaced; a field named by the mask and not populated in the source is cleared.
 
 Masks are lists of top-level paths (`x` stands for a path that is not a field of the message), with
 duplicates and order kept as given.  `flatOps` follows `pkg/masks` (`FieldUpdater.Validate/Merge`,
@@ -17,7 +25,7 @@ Integers are unbounded here; the harness keeps |values| far below 2^31 so `int32
 -/
 namespace ScVerif.C01
 
-inductive Field | a | s | c | x
+inductive Field | a | s | c | f | r | x
   deriving DecidableEq, Repr
 
 abbrev Mask := List Field
@@ -26,6 +34,8 @@ structure Msg where
   a : Int
   s : String
   c : Option Int
+  f : Option (Int × Int) := none
+  r : List Int := []
   deriving DecidableEq, Repr
 
 namespace Flat
@@ -37,6 +47,8 @@ def has (m : Msg) : Field → Bool
   | .a => m.a ≠ 0
   | .s => m.s ≠ ""
   | .c => m.c.isSome
+  | .f => m.f.isSome
+  | .r => !m.r.isEmpty
   | .x => false
 
 /-- `protoreflect.Message.Clear` -/
@@ -44,22 +56,31 @@ def clear (m : Msg) : Field → Msg
   | .a => { m with a := 0 }
   | .s => { m with s := "" }
   | .c => { m with c := none }
+  | .f => { m with f := none }
+  | .r => { m with r := [] }
   | .x => m
 
-/-- copy field `f` of `src` into `dst` -/
+/-- `proto.Merge` of a `ForeignMessage`: populated (non-zero) sub-fields of the source overwrite -/
+def mergeForeign (d s : Int × Int) : Int × Int :=
+  (if s.1 ≠ 0 then s.1 else d.1, if s.2 ≠ 0 then s.2 else d.2)
+
+/-- `proto.Merge` for one populated field `f` of `src`: a scalar is overwritten, a nested message
+is merged into (created if absent), a repeated field is appended to -/
 def copy (dst src : Msg) : Field → Msg
   | .a => { dst with a := src.a }
   | .s => { dst with s := src.s }
   | .c => { dst with c := src.c }
+  | .f => { dst with f := src.f.map (mergeForeign (dst.f.getD (0, 0))) }
+  | .r => { dst with r := dst.r ++ src.r }
   | .x => dst
 
-def fields : List Field := [.a, .s, .c]
+def fields : List Field := [.a, .s, .c, .f, .r]
 
 /-- `FieldMask.IsValid(msg)` -/
 def isValid (m : Mask) : Bool := m.all (· ≠ .x)
 
 /-- `normalizePaths`: sorted, duplicate free (top-level paths have no prefixes of each other). -/
-def normalize (m : Mask) : Mask := [Field.a, .s, .c, .x].filter (m.contains ·)
+def normalize (m : Mask) : Mask := [Field.f, .a, .s, .c, .r, .x].filter (m.contains ·)
 
 /-- `fieldmaskpb.Union` -/
 def union (w : Mask) (more : Option Mask) : Mask := normalize (w ++ more.getD [])
@@ -70,19 +91,19 @@ def intersect (x y : Mask) : Mask := (normalize x).filter ((normalize y).contain
 /-- `fmutils.NestedMask.Filter`: an empty mask keeps everything. -/
 def nmFilter (mask : Mask) (m : Msg) : Msg :=
   if mask.isEmpty then m
-  else fields.foldl (fun acc f => if mask.contains f then acc else clear acc f) m
+  else fields.foldl (fun acc fld => if mask.contains fld then acc else clear acc fld) m
 
 /-- `fmutils.NestedMask.Prune` -/
 def nmPrune (mask : Mask) (m : Msg) : Msg :=
-  fields.foldl (fun acc f => if mask.contains f then clear acc f else acc) m
+  fields.foldl (fun acc fld => if mask.contains fld then clear acc fld else acc) m
 
 /-- `proto.Merge(dst, src)`: populated scalar fields of `src` overwrite. -/
 def protoMerge (dst src : Msg) : Msg :=
-  fields.foldl (fun acc f => if has src f then copy acc src f else acc) dst
+  fields.foldl (fun acc fld => if has src fld then copy acc src fld else acc) dst
 
 /-- `masks.pruneEmpty(dst, src, mask)` -/
 def pruneEmpty (dst src : Msg) (mask : Mask) : Msg :=
-  fields.foldl (fun acc f => if has acc f && mask.contains f && !(has src f) then clear acc f else acc) dst
+  fields.foldl (fun acc fld => if has acc fld && mask.contains fld && !(has src fld) then clear acc fld else acc) dst
 
 /-- `FieldUpdater.Validate` -/
 def validate (u : Upd Mask) (_msg : Msg) : Option Code :=
@@ -214,15 +235,27 @@ def namedCheck (name : String) : Option (Option Msg → Option Code) :=
                                    else some .failedPrecondition)
   | _ => none
 
-def lowerChar (ch : Char) : Char :=
-  if 'A' ≤ ch ∧ ch ≤ 'Z' then Char.ofNat (ch.toNat + 32) else ch
+/-- ASCII upper-case letters and their lower-case forms -/
+def lowerTable : List (Char × Char) :=
+  "ABCDEFGHIJKLMNOPQRSTUVWXYZ".toList.zip "abcdefghijklmnopqrstuvwxyz".toList
+
+/-- lower-case an ASCII letter, leave everything else alone -/
+def lowerChar (ch : Char) : Char := (lowerTable.lookup ch).getD ch
 
 def lowerStr (s : String) : String := String.ofList (s.toList.map lowerChar)
 
+/-- `dash`: prepend "-" (not idempotent, never empty: id generation can never trigger) -/
+def dashStr (s : String) : String := "-" ++ s
+/-- `first`: keep the first character (idempotent, many ids collide) -/
+def firstStr (s : String) : String := String.ofList (s.toList.take 1)
+/-- `dup`: double the id (maps "" to "", NOT idempotent) -/
+def dupStr (s : String) : String := s ++ s
+
 def namedIcpt : String → Option (String → String)
   | "lower" => some lowerStr
-  | "dash" => some (fun s => "-" ++ s)
-  | "first" => some (fun s => String.ofList (s.toList.take 1))
+  | "dash" => some dashStr
+  | "first" => some firstStr
+  | "dup" => some dupStr
   | _ => none
 
 def namedInclude : String → Option (String → Msg → Bool)
